@@ -47,6 +47,20 @@ SpellsOK(T, qs, p, n) ==
   \/ /\ \A q \in qs : TState(T, q).sym = Rhs(T, p)[n]
      /\ SpellsOK(T, UNION {TPreds(T, q) : q \in qs}, p, n - 1)
 
+\* A cycle of EMPTY reductions under one lookahead: the LR parser reduces forever
+\* without consuming input.  Cannot exist in a table whose cells were never resolved
+\* (it would be a reduce/reduce or shift/reduce conflict of a cyclic or hidden-left-
+\* recursive grammar), but priorities / associativity / shift preference given by the
+\* user can resolve every such conflict in favour of the EMPTY reduction.
+EpsStep(T, q, t) ==
+  LET cell == T.states[q + 1].actions[t + 1]
+  IN IF Len(cell) >= 1 /\ cell[1].k = "r" /\ cell[1].n = 0 THEN TGoto(T, q, Lhs(T, cell[1].p)) ELSE -1
+RECURSIVE EpsWalk(_, _, _, _)
+EpsWalk(T, q, t, seen) ==
+  LET n == EpsStep(T, q, t)
+  IN IF n < 0 THEN FALSE ELSE IF n \in seen THEN TRUE ELSE EpsWalk(T, n, t, seen \cup {n})
+EpsLoops(T) == {qt \in (0 .. (NStates(T) - 1)) \X Terms(T) : EpsWalk(T, qt[1], qt[2], {qt[1]})}
+
 \* The set of named defects of a table (empty = well-formed).
 WFDefects(T, C) ==
   LET Qs == TStates(T)
